@@ -111,7 +111,7 @@ def run_cli(argv: List[str]) -> Tuple[Any, str, str]:
 
     out, err = io.StringIO(), io.StringIO()
     try:
-        rc = cli.main(["-c", "mcfg:CONFIG"] + argv, out, err)
+        rc = cli.main(["-c", "mcfg:fresh()"] + argv, out, err)
     except SystemExit as e:
         rc = f"SystemExit({e.code})"
     except BaseException as e:  # noqa: BLE001
